@@ -84,3 +84,21 @@ CHECKS["C01"] = {
         {"variant": "tsan", "engine": "stress", "procs": 2, "rounds_quick": 1000, "rounds_thorough": 20000},
     ],
 }
+
+CHECKS["C02"] = {
+    "src": "C02.cpp",
+    "level": "exploration",
+    "rule": "generated client programs mixing lock_shared / try_lock_shared(_for/_until) / const lock() / read / load with lock / try_lock* / modify "
+            "/ store / = / modify_detach / modify_async on shared_guarded, shared_guarded_opt(true), ordered_guarded, deferred_guarded x 4 mutex "
+            "types; reader windows may overlap each other, never a writer window; a handle's view must not change while held; rendezvous rounds "
+            "(two readers must be inside together) for shared-capable mutexes; on mutex/timed_mutex two readers inside together is a violation. "
+            "Non-trivial: a lock acquisition found the lock taken or >= 2 readers were inside together; distinct = (program, schedule, outcome).",
+    "assumptions": GUARD_ASSUME + ["'never blocked merely by another reader' is tested with no writer present (platform rwlock fairness policy is not judged)"],
+    "runs": [
+        {"variant": "plain", "engine": "serial", "procs": 6, "rounds_quick": 6000, "rounds_thorough": 120000},
+        {"variant": "plain", "engine": "stress", "procs": 3, "rounds_quick": 3000, "rounds_thorough": 60000},
+        {"variant": "asan", "engine": "stress", "procs": 3, "rounds_quick": 1500, "rounds_thorough": 30000},
+        {"variant": "asan", "engine": "serial", "procs": 2, "rounds_quick": 1500, "rounds_thorough": 30000},
+        {"variant": "tsan", "engine": "stress", "procs": 2, "rounds_quick": 1000, "rounds_thorough": 20000},
+    ],
+}
